@@ -85,7 +85,7 @@ Definition e4_alice : account := 1%N.
 Definition e4_bob : account := 2%N.
 Definition e4_create (ps : list posting) : request :=
   {| rq_kind := KCreate; rq_ik := 0%N; rq_ref := 0%N; rq_dry := false; rq_postings := ps; rq_unb := false;
-     rq_revert := O; rq_target_tx := None |}.
+     rq_revert := O; rq_target_tx := None; rq_meta := 0%N |}.
 Definition e4_resumes (t : tid) (n : nat) : list action := repeat (AResume t) n.
 
 (* thread 0 funds alice with 100 and completes; threads 1 and 2 each send 100 from alice to bob *)
